@@ -312,7 +312,8 @@ def run_cases(cases, workdir, nbatch=8, indented=False, seed=1):
     regular = [c for c in good if not c.get('solo')]
     nb = max(1, min(nbatch, (len(regular) + 3) // 4))
     batches = [regular[i::nb] for i in range(nb)]
-    batches = [b for b in batches if b] + [[c] for c in solo]
+    # cases known not to compile (pinned known findings) share one extra batch: rustc reports every offending module
+    batches = [b for b in batches if b] + ([solo] if solo else [])
     live, bins, cfail, t_build = build_batches(batches, casedir)
     impl = {}
     model = {}
